@@ -82,6 +82,87 @@ def concretize(tc, idx, probe=False):
     return case
 
 
+def concretize_time(tc, probe=False):
+    """tc: the CASE record printed by H1Time (scn, steps in units, half_closed)."""
+    s = tc["scn"]
+    r1 = {"m": "POST", "framing": {"k": "cl", "n": 12}} if s["body"] else {"m": "GET"}
+    reqs = [r1] + ([{"m": "GET"}] if s["n"] == 2 else [])
+    empty = {"status": 200, "conn": "-", "body": {"k": "empty"}}
+    progs = [{"pend": s["pend"], "read": s["read"], "keep": s["keep"], "resp": dict(empty)}]
+    if s["n"] == 2:
+        progs.append({"pend": 0, "read": "none", "keep": "handler", "resp": dict(empty)})
+    cfg = {"ka_ms": s["ka_ms"], "head_ms": s["head_ms"], "disc_ms": s["disc_ms"], "half_closed": tc.get("half_closed", True),
+           "graceful": bool(s["grace"])}
+    case = h1gen.assemble(reqs, progs, cfg=cfg, sock={"shutdown": s["shut"]}, epilogue=False, probe=probe)
+    g1 = case["gt"][0]
+    unit_bytes = [g1["headlen"] // 2, g1["headlen"] - g1["headlen"] // 2] + ([12] if s["body"] else [])
+    if s["n"] == 2:
+        unit_bytes.append(case["gt"][1]["wirelen"])
+    assert sum(unit_bytes) == case["total"], (unit_bytes, case["total"])
+    steps, pos = [], 0
+    for st in tc["steps"]:
+        if "seg" in st:
+            k = st["seg"]
+            steps.append({"seg": sum(unit_bytes[pos:pos + k])})
+            pos += k
+        else:
+            steps.append(st)
+    case["steps"] = steps
+    h1gen.add_epilogue(case)
+    case["origin"] = "H1Time"
+    case["pred"] = tc.get("pred", [])
+    case["model_script"] = {"scn": s, "steps": tc["steps"]}
+    return case
+
+
+def time_fidelity(rep, tpath, all_cases):
+    """Model conformance (not a verdict): for every replayed H1Time script, what the model predicted the client sees up to the end
+    of the script (response heads, how the task ended) against what the real dispatcher did. Disagreements are listed in the evidence."""
+    want = {n + 1: c["pred"] for n, c in enumerate(all_cases) if "pred" in c}
+    if not want:
+        return
+    got, run, live = {}, 0, False
+    with open(tpath) as f:
+        for line in f:
+            e = json.loads(line)
+            ev = e.get("ev")
+            if ev == "Reset":
+                run, live = e["run"], e["run"] in want
+                if live:
+                    got[run] = []
+            elif live:
+                if ev == "Writable" and e.get("k") == -1:
+                    live = False            # the epilogue starts here
+                elif ev == "Resp" and not e.get("interim"):
+                    got[run].append({"s": e["status"], "c": "close" if e.get("conn") == "close" else "-"})
+                elif ev == "Done":
+                    got[run].append({"s": 0, "c": "ok" if e["res"] == "ok" else "err:" + e.get("kind", "")})
+    bad = []
+    for n, pred in want.items():
+        if got.get(n) != [{"s": x["s"], "c": x["c"]} for x in pred]:
+            bad.append({"run": n, "script": all_cases[n - 1].get("model_script"), "model": pred, "impl": got.get(n)})
+    rep.cov["model_conformance"] = {"scripts_compared": len(want), "agree": len(want) - len(bad), "disagree_examples": bad[:5]}
+    print("[fidelity] H1Time predictions vs real dispatcher: %d/%d agree" % (len(want) - len(bad), len(want)))
+
+
+def time_scripts(rep, cfgs, workers, timeout, max_scripts, rnd):
+    """Model-checks H1Time (the dispatcher's timers, linger, shutdown and drain branches against H1Ref) and returns its scripts."""
+    cases = []
+    for cfg in cfgs:
+        res = vlib.run_tlc(AREA, "H1Time", cfg, rep.workdir, workers=workers, timeout=timeout, xmx="10g")
+        vlib.tlc_ok(res, "H1Time " + cfg)
+        rep.add_tlc("H1Time/" + cfg, res, exhaustive=True)
+        if res.distinct < 1000:
+            raise vlib.ToolError("H1Time explored suspiciously little with " + cfg)
+        scripts = res.cases
+        rep.cov.setdefault("scripts_generated", 0)
+        rep.cov["scripts_generated"] += len(scripts)
+        if len(scripts) > max_scripts:
+            scripts = rnd.sample(scripts, max_scripts)
+        cases += [concretize_time(tc) for tc in scripts]
+    return cases
+
+
 # ---------------------------------------------------------------------------------------------
 # directed families (quantifiers that the unit-level model abstracts: byte offsets, classes, sizes)
 # ---------------------------------------------------------------------------------------------
@@ -220,12 +301,15 @@ def selftest_corrupt(pid):
 
 
 def run_h1(rep, pid, mc_cfgs_quick, mc_cfgs_thorough, families, random_kwargs, n_random=(150, 2000), probe=False,
-           max_scripts=(1200, 20000)):
+           max_scripts=(1200, 20000), time_cfgs=None, max_time_scripts=(1500, 30000)):
     quick = rep.tier == "quick"
     rnd = random.Random(rep.seed * 7919 + int(pid[1:]))
     ar = vlib.Area(rep, AREA, "H1Trace", "Trace_%s.cfg" % pid)
     cases = mc_and_scripts(rep, mc_cfgs_quick if quick else mc_cfgs_thorough, 6 if quick else 12, 900 if quick else 3300,
                            max_scripts[0] if quick else max_scripts[1], rnd, probe=probe)
+    if time_cfgs:
+        cases += time_scripts(rep, time_cfgs[0] if quick else time_cfgs[1], 6 if quick else 12, 900 if quick else 3300,
+                              max_time_scripts[0] if quick else max_time_scripts[1], rnd)
     rep.cov["exhaustive"] = False
     n_model = len(cases)
     for fam in families:
@@ -240,6 +324,7 @@ def run_h1(rep, pid, mc_cfgs_quick, mc_cfgs_thorough, families, random_kwargs, n
     for c in cases[:2] + rc[:1]:
         rep.sample({"origin": c.get("origin", "random"), "wire": c["wire"][:6], "steps": c["steps"][:12], "progs": {k: v for k, v in list(c["progs"].items())[:2]}})
     tpath = ar.run_cases(cases + rc, "all", timeout=2400)
+    time_fidelity(rep, tpath, cases + rc)
     ar.selftest(tpath, selftest_corrupt(pid), "one observation corrupted (per-property: Call.tok / Resp.ver / inserted Stall / Mem / Done.t)")
     rep.cov["model_scripts_replayed"] = n_model
     rep.assumptions += ["request/response bodies are pattern bytes; heads are generated from a fixed grammar (lib/h1gen.py)",
